@@ -40,6 +40,10 @@ pub mod c27_net_report_aggregation;
 pub mod c28_preferred_relay;
 pub mod c29_lookup_stream;
 pub mod c30_lookup_publish;
+pub mod c01_dial_authenticates;
+pub mod c40_router_dispatch;
+pub mod c42_hooks_gate;
+pub mod c41_router_shutdown;
 pub mod c02_encodings;
 pub mod c03_handshake;
 pub mod c04_forwarding;
@@ -92,6 +96,10 @@ pub const REGISTRY: &[Prop] = &[
     Prop { id: "C28", level: "exploration", watchdog_quick_s: 600, watchdog_thorough_s: 3600, run: c28_preferred_relay::run },
     Prop { id: "C29", level: "exploration", watchdog_quick_s: 600, watchdog_thorough_s: 3600, run: c29_lookup_stream::run },
     Prop { id: "C30", level: "exploration", watchdog_quick_s: 900, watchdog_thorough_s: 3600, run: c30_lookup_publish::run },
+    Prop { id: "C01", level: "exploration", watchdog_quick_s: 900, watchdog_thorough_s: 7200, run: c01_dial_authenticates::run },
+    Prop { id: "C40", level: "exploration", watchdog_quick_s: 900, watchdog_thorough_s: 7200, run: c40_router_dispatch::run },
+    Prop { id: "C42", level: "exploration", watchdog_quick_s: 900, watchdog_thorough_s: 7200, run: c42_hooks_gate::run },
+    Prop { id: "C41", level: "exploration", watchdog_quick_s: 900, watchdog_thorough_s: 7200, run: c41_router_shutdown::run },
 ];
 
 /// In-target oracles of the libFuzzer targets (see /verif/fuzzing/fuzz).  Panics on a violation.
